@@ -203,7 +203,7 @@ def replay(ob):
     groups += [214, 198, 92, 19, 4, 152, 221, 62, 227, 88]
     fails = []
     for sg in groups[:8]:
-        for extra in _sym.occupancies(sg)[:6]:
+        for extra in _sym.occupancies(sg)[:(40 if "sg" in w and sg == w["sg"] else 6)]:
             try:
                 at = tr.pinned_probe(sg, [(l, z + 15, None) for l, z in extra], npin=1)
                 if len(at) > 250:
